@@ -290,3 +290,20 @@ var ProfileC07 = &Profile{
 		return h.Labels["c07-fractional-rate"] > 0 && okCount(h, "leveragelp.open") > 0 && okCount(h, "stablestake.unbond") > 0 && okCount(h, "stablestake.bond") > 1
 	},
 }
+
+var ProfileC20 = &Profile{
+	ID: "C20", Name: "tradeshield", MinBlocks: 6, MaxBlocks: 40, MaxTxs: 4, Spec: specDefault, Check: CheckC20, ExtraOps: c20ExtraOps, Filter: c20Filter,
+	Weights: map[string]int{"tradeshield.execute": 14, "oracle.feed_price": 10, "amm.swap_in": 5, "amm.swap_out": 3, "perpetual.open": 3, "perpetual.close": 2, "amm.join": 2, "amm.exit": 2, "stablestake.bond": 1},
+	Gaps:    []time.Duration{time.Second, 5 * time.Second, 6 * time.Second, time.Hour + time.Second},
+	Rule:    "history with an execution request that left a named order pending (skipped or failed attempt) followed later by the owner's cancel of that order, and >=1 executed order",
+	NonTrivial: func(h *History) bool {
+		return h.Labels["c20-cancel-after-failed-or-skipped-attempt"] > 0 && h.Labels["c20-spot-executed"]+h.Labels["c20-perp-executed"] > 0
+	},
+	Prepare: func(h *History) error {
+		h.Cur = h.W.Snapshot()
+		s, p := h.c20Triggers()
+		h.Ext["c20-spot-trig"], h.Ext["c20-perp-trig"] = s, p
+		h.Ext["c20-market"] = h.c20MarketTable()
+		return nil
+	},
+}
